@@ -256,6 +256,77 @@ def _sanitized_write(db, wf, v, raw, adt, name, role, elem):
     return False, "no %s / no rejecting comparison with the %s dimension on this value in the writer" % (CHECK[role], role)
 
 
+def tuple_pos(db, f, expr, depth=2):
+    """position of a value inside the tuple it was destructured from (for / let / match patterns, `.0` / `.1`), through parameters"""
+    from ..origins import index as oindex, pat_bindings
+    e = peel_casts(expr)
+    if not isinstance(e, dict):
+        return None
+    if e.get("k") == "Field" and e.get("name", "").isdigit() and not e.get("adt"):
+        return int(e["name"])
+    if e.get("k") == "Path" and e.get("res") == "local":
+        ix = oindex(db)
+        bd = ix.bindings(f).get(e["lid"])
+        if not bd:
+            return None
+        if bd[0] in ("for", "let", "arm", "closure-param"):
+            pat = bd[2] if bd[0] != "closure-param" else None
+            while isinstance(pat, dict) and pat.get("k") in ("Ref", "Box"):
+                pat = pat["pat"]
+            if isinstance(pat, dict) and pat.get("k") == "Tuple":
+                for i, sub in enumerate(pat["pats"]):
+                    if e["lid"] in [l for l, _ in pat_bindings(sub)]:
+                        return i
+            if bd[0] == "let" and bd[1] is not None and isinstance(pat, dict) and pat.get("k") == "Bind":
+                return tuple_pos(db, f, bd[1], depth)
+            return None
+        if bd[0] == "param" and depth > 0:
+            got = set()
+            for cf, cn in ix.callsites.get(f.key, []):
+                args = call_args(cn)
+                if bd[1] < len(args):
+                    got.add(tuple_pos(db, cf, args[bd[1]], depth - 1))
+            got.discard(None)
+            return got.pop() if len(got) == 1 else None
+    return None
+
+
+@rule("C20.pair-axis", "for id PAIRS (inhibited connections) the member used as the left coordinate is the one validated by check_left_id and the "
+                       "member used as the right coordinate the one validated by check_right_id")
+def pair_axis(db, ctx):
+    n = 0
+    for f, node, sink, roles in _sink_calls(db):
+        if sink != "set_connect_cost":
+            continue
+        pos = {role: tuple_pos(db, f, e) for role, e in roles[:2]}
+        if None in pos.values():
+            continue
+        # carrier field and its writers
+        carriers = set()
+        for role, e in roles[:2]:
+            for o in origins(db, f, e, depth=3):
+                if o[0] == "field" and _is_plugin_adt(o[1]):
+                    carriers.add((o[1], o[2]))
+        for adt, name in sorted(carriers):
+            for wf, kind, val, wn in field_writes(db, adt, name):
+                checks = {}
+                for c, _ in walk(wf.hir):
+                    if c.get("k") == "MethodCall" and c.get("method") in ("check_left_id", "check_right_id") and c["args"]:
+                        p = tuple_pos(db, wf, c["args"][0])
+                        if p is not None:
+                            checks.setdefault(c["method"], set()).add(p)
+                if not checks:
+                    continue
+                n += 1
+                ok = checks.get("check_left_id") == {pos["left"]} and checks.get("check_right_id") == {pos["right"]}
+                ctx.ob("%s.%s|%s" % (short_path(adt), name, wf.short()), ok,
+                       "%s uses pair member #%d as the left and #%d as the right coordinate of set_connect_cost; %s validates member(s) %s with check_left_id and "
+                       "%s with check_right_id%s" % (f.short(), pos["left"], pos["right"], wf.short(), sorted(checks.get("check_left_id", [])),
+                                                      sorted(checks.get("check_right_id", [])), "" if ok else " — AXIS MISMATCH: with a non-square matrix an "
+                                                      "out-of-range id passes and a valid one is rejected"), fn=wf)
+    ctx.floor(1)
+
+
 @rule("C20.unchecked-consumer", "every lattice-node constructor call takes its connection ids from a sanitized plugin "
                                 "field, from dictionary word parameters, from another node, or from the constant 0")
 def consumer(db, ctx):
